@@ -472,4 +472,63 @@ def NoDescArg (m : MRS) : Bool :=
           | some ek => !nsArgOf ei.1 ek
           | none => true))))
 
+/-! ## "what DMRS cannot express … removed", and isomorphism by a variable map -/
+
+/-- does the handle select a scope (through its last handle constraint)? -/
+def selectsScope (m : MRS) (v : Var) : Bool :=
+  match m.hcLast v with
+  | some hc => hc.lo ∈ m.labels
+  | none => false
+
+/-- can DMRS express the argument?  the intrinsic argument; the intrinsic variable of a
+non-quantifier predication; a label; a constrained handle selecting a scope; the BODY of a
+quantifier (an unconstrained hole, re-created by `from_dmrs`). -/
+def expressible (m : MRS) (e : EP) (a : Role × Var) : Bool :=
+  a.1 == INTRINSIC_ROLE || (ivToNid m a.2).isSome || decide (a.2 ∈ m.labels) || selectsScope m a.2 ||
+    (a.1 == BODY_ROLE && e.isQuantifier)
+
+/-- `strip m`: arguments DMRS cannot express, individual constraints, a top that selects no
+scope, an index that is no intrinsic variable and handle constraints that are not the (last)
+constraint of the top or of an argument are removed. -/
+def strip (m : MRS) : MRS :=
+  let keepHc := fun (hc : HCons) =>
+    m.hcLast hc.hi == some hc && decide (hc.lo ∈ m.labels) &&
+      (m.top == some hc.hi || m.rels.any (fun e => e.args.any (fun a => a.2 == hc.hi)))
+  { top := match m.top with
+      | some t => if selectsScope m t then some t else none
+      | none => none
+    index := match m.index with
+      | some v => if (ivToNid m v).isSome then some v else none
+      | none => none
+    rels := m.rels.map (fun e => { e with args := e.args.filter (expressible m e) })
+    hcons := m.hcons.filter keepHc
+    icons := []
+    variables := m.variables }
+
+/-- the variables an MRS mentions. -/
+def varsOf (m : MRS) : List Var :=
+  m.top.toList ++ m.index.toList ++ m.rels.flatMap (fun e => e.label :: e.args.map (·.2)) ++
+    m.hcons.flatMap (fun hc => [hc.hi, hc.lo])
+
+/-- `b` is `a` with its variables renamed by `f`, predication by predication in the same order:
+same predicates / constants / surface information, labels, arguments (role by role), handle
+constraints, top and index mapped by `f`; `f` injective and sort-preserving on the variables of
+`a`, and the properties of intrinsic variables preserved. -/
+structure IsoVia (f : Var → Var) (a b : MRS) : Prop where
+  len : a.rels.length = b.rels.length
+  rels : ∀ (i : Nat) (e e2 : EP), a.rels[i]? = some e → b.rels[i]? = some e2 →
+    (e.predicate, e.carg, e.lnk, e.surface, e.base) =
+      (e2.predicate, e2.carg, e2.lnk, e2.surface, e2.base) ∧
+    e2.label = f e.label ∧
+    (∀ r v, (r, v) ∈ e.args → (r, f v) ∈ e2.args) ∧
+    (∀ r w, (r, w) ∈ e2.args → ∃ v, (r, v) ∈ e.args ∧ w = f v) ∧
+    (∀ v, e.iv = some v → b.props (f v) = a.props v)
+  hconsF : ∀ hc ∈ a.hcons, (⟨f hc.hi, hc.rel, f hc.lo⟩ : HCons) ∈ b.hcons
+  hconsB : ∀ hc2 ∈ b.hcons, ∃ hc ∈ a.hcons, hc2 = ⟨f hc.hi, hc.rel, f hc.lo⟩
+  top : b.top = a.top.map f
+  index : b.index = a.index.map f
+  icons : b.icons = []
+  inj : ∀ v ∈ varsOf a, ∀ w ∈ varsOf a, f v = f w → v = w
+  sorts : ∀ v ∈ varsOf a, (f v).sort = v.sort
+
 end Verif.C04
